@@ -13,7 +13,7 @@ def run(tier):
     from checks import statrun
     statrun.run_family(PROP, "run", tier, SIZES_Q, SIZES_T, MODES, l1=(8, 11, 13),
                        l3_calls=lambda n: [{"t": "runs"}, {"t": "rundist"}, {"t": "longest", "sym": 1}, {"t": "longest", "sym": 0}],
-                       l3_sizes=[749999, 750000, 1000000, 1048579] + ([750001, 10000000] if tier == "thorough" else []),
+                       l3_sizes=[749999, 750000, 1000000, 1048576, 1048579] + ([750001, 10000000] if tier == "thorough" else []),
                        text="runs total, runs distribution (cut-off k(n), pooling, last run) and longest run of ones/zeros in the three regimes (8 / 128 / 10000-bit blocks); "
                             "the class-probability tables are checked against the exact combinatorial probabilities (recurrence validated by brute force for m <= 10)")
 
